@@ -325,7 +325,7 @@ def run_table(pid, tier, seed):
     shutil.rmtree(rundir, ignore_errors=True); os.makedirs(rundir)
     if pid == 'C15':
         harness, genmod, tracemod = 'frontx', 'RenderGen.tla', 'RenderTrace.tla'
-        invs = ['C15_NoDrop', 'C15_HttpRendering', 'C15_GrpcRendering', 'C15_SameRequest', 'C15_ClaimCarriesItsPromises']
+        invs = ['C15_NoDrop', 'C15_HttpRendering', 'C15_GrpcRendering', 'C15_SameRequest', 'C15_ClaimCarriesItsPromises', 'C15_StatesRendered']
     else:
         harness, genmod, tracemod = 'routex', 'RouteGen.tla', 'RouteTrace.tla'
         invs = ['C19_RouterFollowsTag', 'C19_SenderResolves']
